@@ -131,7 +131,8 @@ CHECKS = {
         "_get_sw/_copy_sw/_concat_sw and the new-training-record block of the emulated partial_fit from the current source into Gen/WrapperGen.lean on every run; "
         "merge_eq proves the generated block equal to the model's merge for all inputs, gen_merge_spec / gen_merge_total / gen_merge_mixed / gen_merge_nodup are "
         "stated about the generated text, and skawrapgendriver executes it against the record the real object holds after partial_fit; the attribute-storing tail of "
-        "fit is translated too (fit.store; gen_fit_store_eq_fit: it leaves exactly the state the model's fit returns) and executed against the real attributes.",
+        "fit is translated too (fit.store; gen_fit_store_eq_fit: it leaves exactly the state the model's fit returns) and executed against the real attributes, "
+        "and so is the native branch of partial_fit (partial_fit.native; gen_native_eq_partialNative), executed on the call histories of the recording classifiers.",
         design="§4 C19",
         technique="Lean 4 proof (refinement + induction over op sequences; bridging proof for the translated source) + state-level correspondence",
     ),
